@@ -97,13 +97,16 @@ func FindNaluTypes(sample []byte) []NaluType {
 	if length < 4 {
 		return naluList
 	}
-	var pos uint32 = 0
-	for pos < uint32(length-4) {
-		naluLength := binary.BigEndian.Uint32(sample[pos : pos+4])
+	pos := 0
+	for pos < length-4 {
+		naluLength := uint64(binary.BigEndian.Uint32(sample[pos : pos+4]))
 		pos += 4
 		naluType := GetNaluType(sample[pos])
 		naluList = append(naluList, naluType)
-		pos += naluLength
+		if naluLength > uint64(length-pos) {
+			break // NALU length field points beyond the sample
+		}
+		pos += int(naluLength)
 	}
 	return naluList
 }
@@ -115,16 +118,19 @@ func FindNaluTypesUpToFirstVideoNalu(sample []byte) []NaluType {
 	if length < 4 {
 		return naluList
 	}
-	var pos uint32 = 0
-	for pos < uint32(length-4) {
-		naluLength := binary.BigEndian.Uint32(sample[pos : pos+4])
+	pos := 0
+	for pos < length-4 {
+		naluLength := uint64(binary.BigEndian.Uint32(sample[pos : pos+4]))
 		pos += 4
 		naluType := GetNaluType(sample[pos])
 		naluList = append(naluList, naluType)
-		pos += naluLength
 		if IsVideoNaluType(naluType) {
 			break // Video has started
 		}
+		if naluLength > uint64(length-pos) {
+			break // NALU length field points beyond the sample
+		}
+		pos += int(naluLength)
 	}
 	return naluList
 }
@@ -136,19 +142,19 @@ func IsVideoNaluType(naluType NaluType) bool {
 
 // ContainsNaluType - is specific NaluType present in sample
 func ContainsNaluType(sample []byte, specificNaluType NaluType) bool {
-	var pos uint32 = 0
+	pos := 0
 	length := len(sample)
-	if length < 4 {
-		return false
-	}
-	for pos < uint32(length-4) {
-		naluLength := binary.BigEndian.Uint32(sample[pos : pos+4])
+	for pos < length-4 {
+		naluLength := uint64(binary.BigEndian.Uint32(sample[pos : pos+4]))
 		pos += 4
 		naluType := GetNaluType(sample[pos])
 		if naluType == specificNaluType {
 			return true
 		}
-		pos += naluLength
+		if naluLength > uint64(length-pos) {
+			break // NALU length field points beyond the sample
+		}
+		pos += int(naluLength)
 	}
 	return false
 }
@@ -195,23 +201,27 @@ func HasParameterSets(b []byte) bool {
 
 // GetParameterSets - get (multiple) VPS,  SPS, and PPS from a sample
 func GetParameterSets(sample []byte) (vps, sps, pps [][]byte) {
-	sampleLength := uint32(len(sample))
-	var pos uint32 = 0
+	sampleLength := len(sample)
+	pos := 0
 naluLoop:
-	for pos < sampleLength {
-		naluLength := binary.BigEndian.Uint32(sample[pos : pos+4])
+	for pos < sampleLength-4 {
+		naluLength := uint64(binary.BigEndian.Uint32(sample[pos : pos+4]))
 		pos += 4
+		if naluLength > uint64(sampleLength-pos) {
+			break // NALU length field points beyond the sample
+		}
+		end := pos + int(naluLength)
 		switch naluType := GetNaluType(sample[pos]); {
 		case naluType == NALU_VPS:
-			vps = append(vps, sample[pos:pos+naluLength])
+			vps = append(vps, sample[pos:end])
 		case naluType == NALU_SPS:
-			sps = append(sps, sample[pos:pos+naluLength])
+			sps = append(sps, sample[pos:end])
 		case naluType == NALU_PPS:
-			pps = append(pps, sample[pos:pos+naluLength])
+			pps = append(pps, sample[pos:end])
 		case naluType <= highestVideoNaluType:
 			break naluLoop
 		}
-		pos += naluLength
+		pos = end
 	}
 	return vps, sps, pps
 }
